@@ -1368,6 +1368,90 @@ def expand_helpers(func, resolve):
     return func
 
 
+def scalarise_local_objects(func, class_of):
+    """A local helper OBJECT that only carries a few tables and the code that fills them --
+
+        acc = _Table(n)                 class _Table:
+        acc.add(row, term)                  def __init__(self, n): self.n = n; self.rhs = ["0.0"] * n
+        rhs = acc.rhs                       def add(self, row, term): self.rhs[row] += term
+
+    -- is the code it abbreviates: the constructor and every method call on the object are put back in place (expand_helpers, the
+    receiver standing for `self`) and each field `acc.f` becomes the local `acc__f`.  class_of(callee expr) -> ClassDef | None names
+    the plain helper classes (no bases, no decorators, no properties / dunder hooks besides __init__).  Done only when the object
+    is bound once, at the top level of the function, and never used otherwise than `acc.<field>` / `acc.<method>(..)` (it does not
+    escape) and every call could be put back; otherwise the function is returned unchanged.  Returns a new FunctionDef."""
+    work = copy.deepcopy(func)
+    objs = {}
+    stores = {}
+    for n in ast.walk(work):
+        if isinstance(n, ast.Name) and isinstance(n.ctx, (ast.Store, ast.Del)):
+            stores[n.id] = stores.get(n.id, 0) + 1
+    params = {a.arg for a in ast.walk(work.args) if isinstance(a, ast.arg)}
+    for i, st in enumerate(work.body):
+        if isinstance(st, ast.Assign) and len(st.targets) == 1 and isinstance(st.targets[0], ast.Name) and isinstance(st.value, ast.Call):
+            x = st.targets[0].id
+            cd = class_of(st.value.func)
+            if cd is None or stores.get(x) != 1 or x in params:
+                continue
+            if cd.bases or cd.decorator_list or cd.keywords:
+                continue
+            meths = {m.name: m for m in cd.body if isinstance(m, ast.FunctionDef)}
+            if "__init__" not in meths or any(m.decorator_list or (k.startswith("__") and k != "__init__") for k, m in meths.items()):
+                continue
+            if any(isinstance(b, (ast.ClassDef, ast.AsyncFunctionDef)) for b in cd.body):
+                continue
+            # fields: everything the methods store through self; class-level attributes are not followed
+            if any(isinstance(b, (ast.Assign, ast.AnnAssign)) and getattr(b, "value", None) is not None for b in cd.body):
+                continue
+            objs[x] = (i, meths)
+    if not objs:
+        return func
+    for x, (i, meths) in objs.items():
+        st = work.body[i]
+        call = st.value
+        init = ast.Expr(value=ast.Call(func=ast.Attribute(value=ast.Name(id=x, ctx=ast.Load()), attr="__init__", ctx=ast.Load()), args=call.args, keywords=call.keywords))
+        work.body[i] = ast.fix_missing_locations(ast.copy_location(init, st))
+
+    def resolve(call):
+        f = call.func
+        if isinstance(f, ast.Attribute) and isinstance(f.value, ast.Name) and f.value.id in objs and f.attr in objs[f.value.id][1]:
+            return objs[f.value.id][1][f.attr], f.value
+        return None
+    try:
+        expand_helpers(work, resolve)
+    except RecursionError:
+        return func
+    # every remaining use of the object must be a field access
+    parent_attr = set()
+    for n in ast.walk(work):
+        if isinstance(n, ast.Attribute) and isinstance(n.value, ast.Name) and n.value.id in objs:
+            parent_attr.add(id(n.value))
+            if n.attr in objs[n.value.id][1]:
+                return func                 # a method used as a value / a call that could not be put back
+    for n in ast.walk(work):
+        if isinstance(n, ast.Name) and n.id in objs and id(n) not in parent_attr:
+            return func                     # the object itself is read (passed on, returned, compared): it escapes
+    fields = {}
+    for n in ast.walk(work):
+        if isinstance(n, ast.Attribute) and isinstance(n.value, ast.Name) and n.value.id in objs and isinstance(n.ctx, ast.Store):
+            fields.setdefault(n.value.id, set()).add(n.attr)
+    taken = {n.id for n in ast.walk(work) if isinstance(n, ast.Name)} | params
+
+    class Fld(ast.NodeTransformer):
+        def visit_Attribute(self, n):
+            self.generic_visit(n)
+            if isinstance(n.value, ast.Name) and n.value.id in objs:
+                return ast.copy_location(ast.Name(id=f"{n.value.id}__{n.attr}", ctx=n.ctx), n)
+            return n
+    for x in objs:
+        # a field that is read but never assigned, or whose local name is taken: not a plain record of tables
+        reads = {n.attr for n in ast.walk(work) if isinstance(n, ast.Attribute) and isinstance(n.value, ast.Name) and n.value.id == x}
+        if reads - fields.get(x, set()) or any(f"{x}__{f}" in taken for f in reads):
+            return func
+    work = Fld().visit(work)
+    return ast.fix_missing_locations(work)
+
+
 class _CallLambda(ast.NodeTransformer):
     """`(lambda: e)()` -> e   (a parameterless lambda called on the spot, e.g. after a table of closures was unrolled)"""
 
@@ -2573,12 +2657,25 @@ def coalesce_copies(func):
             before = {n.id for b in func.body[:i] for n in ast.walk(b) if isinstance(n, ast.Name)} | \
                      {n.name for b in func.body[:i] for n in ast.walk(b) if isinstance(n, (ast.FunctionDef, ast.ClassDef))}
             after = {n.id for b in func.body[i + 1:] for n in ast.walk(b) if isinstance(n, ast.Name)}
-            if set(dsts) & (before | params) or set(srcs) & after or not set(srcs) <= before:
+            if set(dsts) & (before | params) or not set(srcs) <= before:
                 continue
             if any(isinstance(n, (ast.Global, ast.Nonlocal)) for n in ast.walk(func)):
                 continue
+            alias = False
+            if set(srcs) & after:
+                # `A = x` with x still used afterwards: when neither name is ever bound again, both denote the one object from here
+                # on (an ALIAS, e.g. `rhs = table__rhs` left by a scalarised helper object): x is spelled A everywhere
+                nstores = {}
+                for n in ast.walk(func):
+                    if isinstance(n, ast.Name) and isinstance(n.ctx, (ast.Store, ast.Del)):
+                        nstores[n.id] = nstores.get(n.id, 0) + 1
+                if any(nstores.get(x, 0) != 1 for x in srcs + dsts):
+                    continue
+                alias = True
             ren = dict(zip(srcs, dsts))
             func.body[:i] = [_Rename(ren).visit(b) for b in func.body[:i]]
+            if alias:
+                func.body[i + 1:] = [_Rename(ren).visit(b) for b in func.body[i + 1:]]
             del func.body[i]
             changed = True
             break
